@@ -138,6 +138,13 @@ func c12WriteFault(failAt, keep int, sizes []int) *vlib.Result {
 }
 
 func c12FaultCases(tier string, yield func(vlib.Case)) {
+	const MiB = 1 << 20
+	for _, big := range []int{MiB - 40, MiB - 33, MiB - 32, MiB - 31, MiB - 17, MiB - 16, MiB - 15, MiB - 1, MiB, MiB + 1} {
+		for _, sizes := range [][]int{{big, 64, 5}, {3, big, 64, 5}, {3, 0, big, big, 7}} {
+			big, sizes := big, sizes
+			yield(vlib.Case{ID: fmt.Sprintf("refused-send/big=%d/sizes=%v", big-MiB, sizes), Run: func() *vlib.Result { return c12Refused(sizes) }})
+		}
+	}
 	for failAt := 2; failAt <= 4; failAt++ {
 		for _, keep := range []int{0, 1, 5, 6, 21, 40, -1} {
 			for _, sizes := range [][]int{{3, 64, 64, 5}, {0, 100, 0, 100, 7}, {5000, 5000, 5000, 9}} {
@@ -148,4 +155,72 @@ func c12FaultCases(tier string, yield func(vlib.Case)) {
 			}
 		}
 	}
+}
+
+// c12Refused: a send the stream REFUSES (a protected frame that would exceed the frame limit,
+// reachable through the raw stream API) must use up nothing: whatever is sent before and after
+// it forms one sequence that the reference decryptor opens (base IV and digests with the first
+// frame actually emitted, counters without a gap).
+func c12Refused(sizes []int) *vlib.Result {
+	ctx := context.Background()
+	res := &vlib.Result{Evals: 1}
+	id := fmt.Sprintf("message sizes %v", sizes)
+	b := &netsim.Buf{}
+	s := stream.NewStream(b)
+	if err := s.SetSymmetricKey(testKey); err != nil {
+		res.Violate("C12/harness", "%v", err)
+		return res
+	}
+	var accepted [][]byte
+	refused := 0
+	for i, n := range sizes {
+		p := bytes.Repeat([]byte{byte('a' + i)}, n)
+		if err := s.SendMessage(ctx, p); err != nil {
+			refused++
+			continue
+		}
+		accepted = append(accepted, p)
+	}
+	if refused == 0 {
+		res.Outcome("nothing-refused")
+		return res
+	}
+	res.Nontrivial = 1
+	frames, rest := refcodec.ParseFrames(b.W)
+	if len(rest) != 0 {
+		res.Violate("C12/refused-send/wire-garbage", "%s: %d stray bytes", id, len(rest))
+		return res
+	}
+	dir, _ := refcodec.NewDir(testKey, [32]byte{}, [32]byte{})
+	var got [][]byte
+	for i, f := range frames {
+		pt, err := dir.Open(f)
+		if err != nil {
+			res.Violate("C12/refused-send/ref-cannot-open", "%s: %d send(s) were refused; frame %d of the %d emitted does not open under the reference sequence: %v", id, refused, i, len(frames), err)
+			return res
+		}
+		got = append(got, pt)
+	}
+	if len(got) != len(accepted) {
+		res.Violate("C12/refused-send/frame-count", "%s: %d messages accepted, %d frames emitted", id, len(accepted), len(got))
+		return res
+	}
+	for i := range got {
+		if !bytes.Equal(got[i], accepted[i]) {
+			res.Violate("C12/refused-send/data", "%s: accepted message %d differs on the wire", id, i)
+			return res
+		}
+	}
+	// and the real receiver agrees
+	r := stream.NewStream(&netsim.Buf{R: b.W})
+	_ = r.SetSymmetricKey(testKey)
+	for i := range accepted {
+		m, err := r.ReceiveCompleteMessage(ctx)
+		if err != nil || !bytes.Equal(m, accepted[i]) {
+			res.Violate("C12/refused-send/real-receiver", "%s: accepted message %d: %v", id, i, err)
+			return res
+		}
+	}
+	res.Outcome(fmt.Sprintf("refused=%d-sequence-intact", refused))
+	return res
 }
